@@ -459,6 +459,11 @@ func (x *Exec) external(fn *ssa.Function, args []Val) (Val, bool) {
 		}
 		if !n.conc() {
 			x.mustNot("(bvslt "+n.T+" (_ bv0 64))", "explicit-panic", "strings.Repeat")
+			if s, ok := args[0].(Str).concrete(); ok {
+				if k, ok := x.smallInt(n, 48); ok {
+					return strOf(strings.Repeat(s, k)), true
+				}
+			}
 		}
 		return opaque("repeat", args[0].(Str)), true
 	case "strings.Contains":
